@@ -22,9 +22,15 @@ Fixed(kind) == CASE kind = "shape" -> {T("canon", 1)}          \* p:spTree's own
                  [] kind = "ctn"   -> {T("canon", 1)}          \* the root p:cTn
                  [] OTHER -> {}
 
+\* identifier populations that cross a decimal-digit boundary (1..9, 1..10, 1..12, with a gap at 2 or at 10): an allocator that orders
+\* identifiers as TEXT ("image10" < "image2") is right on every small set and wrong here
+BigSets(kind) ==
+  IF kind \in {"rid", "partname", "image", "media", "shape"}
+  THEN {{T("canon", i) : i \in (1..n) \ {g}} : n \in {9, 10, 11, 12}, g \in {0, 2, 10}}
+  ELSE {}
 Act(op, arg, new) == [op |-> op, arg |-> arg, new |-> new]
 None == T("none", 0)
-Init == \E kind \in KINDS : \E S \in SUBSET Universe(kind) :
+Init == \E kind \in KINDS : \E S \in (SUBSET Universe(kind)) \cup BigSets(kind) :
           /\ st = [kind |-> kind, used |-> S \cup Fixed(kind), turbo |-> 0 - 1, nrel |-> 0]
           /\ hist = <<[op |-> "init", kind |-> kind, used |-> SetToSeq(S \cup Fixed(kind))]>>
 More == Len(hist) <= DEPTH
